@@ -29,10 +29,11 @@ type Ctl struct {
 	// fault injection: fail call number FailAt (1-based) and the following FailRepeat-1 calls
 	FailAt     int64
 	FailRepeat int64
-	FailKinds  map[string]bool // nil = any kind
-	KeepStacks bool            // record where each failed call came from (diagnostics in failure reports)
+	FailKinds  map[string]bool            // nil = any kind
+	OnCall     func(n int64, kind string) // called (outside the lock) for every interposed call
+	KeepStacks bool                       // record where each failed call came from (diagnostics in failure reports)
 	Stacks     []string
-	Injected   []string        // kinds of the calls that were failed
+	Injected   []string // kinds of the calls that were failed
 	// crash simulation: after FreezeAfter commits every later commit is dropped
 	FreezeAfter int64
 	frozen      int32
@@ -98,6 +99,9 @@ func (c *Ctl) step(kind string) bool {
 		}
 	}
 	c.mu.Unlock()
+	if c.OnCall != nil {
+		c.OnCall(n, kind)
+	}
 	return fail
 }
 
